@@ -126,11 +126,19 @@ CLAIMED.update({
     "C13": sim("Theorems: the claim is raised only after the claimant's own successful write, and a takeover never replaces a record it could not decode (the takeover "
                "invariant requires a readable stored priority). No crash/hang/unbounded work under arbitrary record bytes is decided by the monitor and the process "
                "watchdog on tamper scenarios.", "5.13 and 11", TECH),
-    "C18": sim("Decided by the monitor only: every Status() snapshot at every quiescent point, every gauge and transition event of every simulated trace is compared "
-               "with the model's instance state. No theorem beyond the shared invariants.", "5.18 and 11", TECH, category="other"),
-    "C19": sim("Decided by the monitor only: the promotion context is observed by a watcher goroutine per term and by the callback itself when it is woken by the context; "
-               "cancellation while the term's claim is still up at the next instant (1901) and survival beyond the term's end (1902) are checked on every simulated trace, "
-               "including left-over acquisitions that succeed under the instance's own running term. No theorem.", "5.19, 11 and 12", TECH, category="other"),
+    "C18": sim("Theorem (Coq, Props/C18.v, from the table of status writers regenerated from the source on every run, gen/GenStatus.v): whatever groups of stores "
+               "to isLeader / state / leaderID run, in whatever order and number, between any two of them IsLeader is true exactly when State is LEADER, a leader's "
+               "LeaderID is its own id and State is a documented value; every group holds kvElection.mu exclusively and Status() loads the three fields inside the same "
+               "lock, so every snapshot is taken between two groups. PARTIAL: token, revision, convergence of a follower's LeaderID, the gauge and the transition chain "
+               "are decided by the monitor: every Status() snapshot at every quiescent point, every gauge and transition event of every simulated trace is compared with "
+               "the model's instance state.", "5.18, 11 and 12.9", TECH),
+    "C19": sim("Theorems (Coq, Props/C19.v, from the table regenerated from the source on every run, gen/GenTermCtx.v: every way through every exclusive section of "
+               "kvElection.mu as operations on the claim, the run's context and the context stored in e.termCancel; 24-state machine, facts checked on all states and "
+               "lifted): under every schedule of those sections and of cancellations by the caller of Start, between two sections no context created for a term is live "
+               "unless the instance claims leadership, none is out of the library's reach, and a live one belongs to a live run; a section that finds the instance "
+               "leading and leaves it leading touches neither context; the context handed to the callback is a child of the term's context. PARTIAL: 'promptly' is "
+               "'within the section that ends the term'; what the callback's goroutine observes (1901 at the next instant, 1902 survival beyond the term's end) is decided "
+               "by the monitor on every simulated trace, including left-over acquisitions that succeed under the instance's own running term.", "5.19, 11 and 12.9", TECH),
 })
 
 NOT_CLAIMED = {}
